@@ -283,6 +283,20 @@ def judge_mixed(case) -> Verdict:
         v.nt()
         v.label("one-block-listed-twice")
         return v
+    pre = case.get("pre_pop")
+    if pre and len(acl.items) >= 2:
+        # before anything carries a number (so that equal lines are really equal): the item AT a position is taken
+        # out with pop(position) and put back elsewhere - also when an item with the same text stands before it
+        before_objs = list(acl.items)
+        i_, j_ = pre[0] % len(before_objs), pre[1] % len(before_objs)
+        taken = acl.pop(i_)
+        rest = before_objs[:i_] + before_objs[i_ + 1:]
+        if taken is not before_objs[i_] or len(acl.items) != len(rest) or any(a is not b for a, b in zip(acl.items, rest)):
+            v.fail("mixed:pop-by-position-took-another-object", {"position": i_, "text": [o.line for o in before_objs][:8]})
+            return v
+        acl.insert(j_, taken)
+        if any(o.line == taken.line for o in rest):
+            v.label("pop-next-to-an-equal-line")
     start, step = case.get("start", 10), case.get("step", 10)
     if not (1 <= start <= 1000 and 1 <= step <= 100):
         raise Invalid()
@@ -333,7 +347,8 @@ def mixed_st(draw, tier):
             "perm": draw(st.lists(st.integers(0, 50), min_size=1, max_size=8)),
             "start": draw(st.sampled_from([1, 10, 100])), "step": draw(st.sampled_from([1, 5, 10])),
             "reuse_block": draw(st.sampled_from([None, None, None, [draw(st.integers(0, 3)), draw(st.integers(0, 12))]])),
-            "bare": draw(st.sampled_from([False] * 7 + [True])), "move": draw(st.sampled_from(["slice", "pop-insert"]))}
+            "bare": draw(st.sampled_from([False] * 7 + [True])), "move": draw(st.sampled_from(["slice", "pop-insert"])),
+            "pre_pop": draw(st.sampled_from([None, [draw(st.integers(0, 11)), draw(st.integers(0, 11))]]))}
 
 
 def judge_inplace(case) -> Verdict:
